@@ -37,7 +37,7 @@ PROPS = {
                 exhaustive_scope='as C11',
                 explanation='theorems: from_graph copies nodes (mapped) and raw edges and never panics; serialisation structure round-trips; iter/iter_rev topological. The YAML text layer is not modelled (correspondence only): partial',
                 assumptions=['serde + serde_yaml_ng text layer is exercised by the correspondence only, not modelled']),
-    'C18': dict(bundle='builder', tags=['P'], kinds=['B'], monitor=rb.mon_c18,
+    'C18': dict(bundle='builder', tags=['P', 'BT'], kinds=['B'], monitor=rb.mon_c18,
                 nontrivial=lambda c: len(c.obs.get('E', '-').split()) >= 3,
                 rule='builder cases incl. layered w x L families (exponentially many paths) and dense graphs; work counters from the verif_hooks feature must equal the model counts; non-trivial = at least 3 edges',
                 exhaustive_scope='as C13',
